@@ -85,6 +85,8 @@ def build_conn(b, seed, params=None):
                     out += Q.f_datagram(b"unreliable-datagram-payload", with_len=True, w=w)
                 elif k == "ncid":
                     cid = c.g(len(c.cid[d]) or 8)
+                    if p.get("ncid_extend"):       # the new CID has the current one as a proper prefix (allowed by RFC 9000)
+                        cid = c.cid[d] + c.g(4)
                     c.issued[d].append(cid)
                     out += Q.f_new_connection_id(cidseq[d], 0, cid, w=w)
                     cidseq[d] += 1
@@ -93,7 +95,13 @@ def build_conn(b, seed, params=None):
         return out, sdata, cdata
 
     lvl = {"I": "i", "H": "h", "Z": "z", "A": "a"}
-    for dgi, dg in enumerate(b["hist"]):
+    # datagrams are BUILT in the order they were sent (packet numbers, CID switches, keys follow the sender) and then
+    # arranged in the order they were captured (hist order); `sn` is the send sequence number
+    send_order = sorted(range(len(b["hist"])), key=lambda i: b["hist"][i].get("sn", i + 1))
+    built_at = {}
+    for dgi in send_order:
+        dg = b["hist"][dgi]
+        built_at[dgi] = len(c.dgrams)
         d = dg["d"]
         if dg["pkts"][0]["t"] == "R":
             new_scid = c.g(p.get("s_cid_len", 8))
@@ -123,6 +131,7 @@ def build_conn(b, seed, params=None):
         c.send(d, parts)
         if first_server:
             c.dcid_now["c"] = c.cid["s"]
+    c.dgrams = [c.dgrams[built_at[i]] for i in range(len(b["hist"]))]
     return c, payload
 
 
